@@ -103,13 +103,13 @@ type descriptor struct {
 
 // refTimer is the reference model of the documented semantics.
 type refTimer struct {
-	d        timerDef
-	created  time.Time
-	started  bool
-	last     time.Time
-	reps     int
-	fired    int
-	closed   bool
+	d         timerDef
+	created   time.Time
+	started   bool
+	last      time.Time
+	reps      int
+	fired     int
+	closed    bool
 	cancelled bool
 }
 
@@ -172,9 +172,9 @@ func (r *refTimer) advance(now time.Time) int {
 }
 
 type result struct {
-	Symptom, Detail string
-	Inconcl         string
-	Log             []string
+	Symptom, Detail               string
+	Inconcl                       string
+	Log                           []string
 	Exact, Beyond2, CancelBetween bool
 }
 
@@ -646,6 +646,170 @@ func TestC13Process(t *testing.T) {
 		rec.Case("TestC13Process", hash, len(steps) >= 2, []string{"kind=" + def.Kind, fmt.Sprintf("pre=%v", d.PreTask)}, map[string]any{"case": d, "log": r.Log})
 		if r.Symptom != "" {
 			rt.Fatalf("%s", rec.Fail(rec.Failure{Property: prop, Test: "TestC13Process", Symptom: r.Symptom, Detail: r.Detail, Descriptor: d, History: r.Log}))
+		}
+	})
+}
+
+// ---------------------------------------------------------------------------
+// two instances of the same parsed definitions on one event bus, created at
+// different clock times: each timer catch event continues only at its OWN
+// instance's due time (a duration timer is relative to its creation).
+
+type twoDesc struct {
+	DurS   int   `json:"durS"`   // duration of the timer, seconds
+	GapS   int   `json:"gapS"`   // clock time between the creation of instance A and B
+	StepsS []int `json:"stepsS"` // clock advances (seconds) after both exist
+}
+
+func runTwo(d twoDesc) *result {
+	r := &result{}
+	b := gen.NewB()
+	st := b.Add(gen.KStart)
+	c := b.Add(gen.KCatch)
+	c.Defs = []gen.EventDef{{Kind: "timer", TimerKind: "timeDuration", TimerExpr: fmt.Sprintf("PT%dS", d.DurS)}}
+	b.Connect(st, c)
+	after := b.Add(gen.KTask)
+	b.Connect(c, after)
+	en := b.Add(gen.KEnd)
+	b.Connect(after, en)
+	p := &gen.Program{G: b.G, DefaultLang: "expr"}
+	defs, err := schema.Parse([]byte(p.XML()))
+	if err != nil {
+		r.Symptom, r.Detail = "construct", err.Error()
+		return r
+	}
+	tr := quiesce.Begin()
+	mock := clock.NewMockAt(base)
+	root, cancel := context.WithCancel(context.Background())
+	defer cancel()
+	ctx := clock.ToContext(root, mock)
+	fan := event.NewFanOut()
+	type inst struct {
+		mu    sync.Mutex
+		tasks int
+		due   time.Time
+	}
+	mk := func() (*inst, error) {
+		in := &inst{due: mock.Now().Add(time.Duration(d.DurS) * time.Second)}
+		tracer := tracing.NewTracer(ctx)
+		builder := event.DefinitionInstanceBuildingChain(timer.EventDefinitionInstanceBuilder(ctx, fan, tracer))
+		sub := tracer.SubscribeChannel(make(chan tracing.ITrace))
+		go func() {
+			for t := range sub {
+				if _, ok := tracing.Unwrap(t).(bpmn.TaskTrace); ok {
+					in.mu.Lock()
+					in.tasks++
+					in.mu.Unlock()
+				}
+			}
+		}()
+		proc, err := bpmn.NewEngine().NewProcess(defs, bpmn.WithContext(ctx), bpmn.WithTracer(tracer),
+			bpmn.WithProcessEventDefinitionInstanceBuilder(builder), bpmn.WithEventEgress(fan), bpmn.WithEventIngress(fan))
+		if err != nil {
+			return nil, err
+		}
+		if err := proc.StartAll(ctx); err != nil {
+			return nil, err
+		}
+		return in, nil
+	}
+	a, err := mk()
+	if err != nil {
+		r.Symptom, r.Detail = "construct", err.Error()
+		return r
+	}
+	if _, err := tr.Wait(0); err != nil {
+		r.Inconcl = err.Error()
+		return r
+	}
+	mock.Add(time.Duration(d.GapS) * time.Second)
+	if _, err := tr.Wait(0); err != nil {
+		r.Inconcl = err.Error()
+		return r
+	}
+	bb, err := mk()
+	if err != nil {
+		r.Symptom, r.Detail = "construct", err.Error()
+		return r
+	}
+	if _, err := tr.Wait(0); err != nil {
+		r.Inconcl = err.Error()
+		return r
+	}
+	check := func(stage string) bool {
+		now := mock.Now()
+		for name, in := range map[string]*inst{"A": a, "B": bb} {
+			want := 0
+			if !now.Before(in.due) {
+				want = 1
+			}
+			in.mu.Lock()
+			got := in.tasks
+			in.mu.Unlock()
+			r.Log = append(r.Log, fmt.Sprintf("%s now=base+%v instance %s due=base+%v downstream=%d (want %d)", stage, now.Sub(base), name, in.due.Sub(base), got, want))
+			if got != want {
+				sym := "continuation"
+				if got > want {
+					sym = "early-or-extra"
+				}
+				r.Symptom, r.Detail = sym, fmt.Sprintf("%s: instance %s (timer due at base+%v, clock at base+%v): the task behind its timer catch event was requested %d times, want %d", stage, name, in.due.Sub(base), now.Sub(base), got, want)
+				return false
+			}
+		}
+		return true
+	}
+	if !check("both created") {
+		return r
+	}
+	for i, s := range d.StepsS {
+		mock.Add(time.Duration(s) * time.Second)
+		if _, err := tr.Wait(0); err != nil {
+			r.Inconcl = err.Error()
+			return r
+		}
+		if !check(fmt.Sprintf("step %d", i)) {
+			return r
+		}
+	}
+	return r
+}
+
+func TestC13TwoInstances(t *testing.T) {
+	var rd twoDesc
+	if ok, err := rec.ReplayInput(&rd); ok {
+		if err != nil {
+			t.Fatal(err)
+		}
+		if rd.DurS == 0 {
+			return
+		}
+		if r := runTwo(rd); r.Symptom != "" {
+			fmt.Printf("REPRODUCED %s: %s\n", r.Symptom, r.Detail)
+			t.Fatalf("%s", r.Symptom)
+		}
+		return
+	}
+	rapid.Check(t, func(rt *rapid.T) {
+		d := twoDesc{DurS: rapid.IntRange(2, 600).Draw(rt, "dur"), GapS: rapid.IntRange(1, 300).Draw(rt, "gap")}
+		n := rapid.IntRange(1, 5).Draw(rt, "steps")
+		for i := 0; i < n; i++ {
+			d.StepsS = append(d.StepsS, rapid.SampledFrom([]int{1, d.DurS - d.GapS, d.DurS - 1, d.GapS, d.DurS, 1000}).Draw(rt, "step"))
+			if d.StepsS[i] <= 0 {
+				d.StepsS[i] = 1
+			}
+		}
+		hash := rec.Hash(d)
+		rec.Begin("TestC13TwoInstances", hash, d)
+		r := runTwo(d)
+		if r.Inconcl != "" {
+			rec.End(hash, "inconclusive")
+			rec.Inconclusive("TestC13TwoInstances", r.Inconcl)
+			rt.Fatalf("inconclusive: %s", r.Inconcl)
+		}
+		rec.End(hash, r.Symptom)
+		rec.Case("TestC13TwoInstances", hash, true, []string{"twoInstancesOneBus"}, map[string]any{"case": d, "log": r.Log})
+		if r.Symptom != "" {
+			rt.Fatalf("%s", rec.Fail(rec.Failure{Property: prop, Test: "TestC13TwoInstances", Symptom: r.Symptom, Detail: r.Detail, Descriptor: d, History: r.Log}))
 		}
 	})
 }
